@@ -784,11 +784,13 @@ def Expr.nfInv : Expr → Prop
   -- `with` / `assert`: outside the spacing theorem so far (`File.basic`)
   | .wth .. => False
   | .asrt .. => False
-  | .sel .. => False
-  | .selOr .. => False
-  | .lam .. => False
-  | .un .. => False
-  | .bin .. => False
+  | .sel e _ _ ab b a => e.nfInv ∧ e.before = [] ∧ ab = [] ∧ Alt b ∧ Alt a
+  | .selOr e _ _ ab d _ db b a =>
+    e.nfInv ∧ e.before = [] ∧ ab = [] ∧ d.nfInv ∧ d.before = [] ∧ db = [] ∧ Alt b ∧ Alt a
+  | .lam n bcc _ k body b a =>
+    body.nfInv ∧ bcc = [] ∧ k ≤ 1 ∧ (k = 0 → body.before = []) ∧ n ≠ [';'] ∧ Alt b ∧ Alt a
+  | .un op e _ bt b a => e.nfInv ∧ e.before = [] ∧ bt = [] ∧ op ≠ [';'] ∧ Alt b ∧ Alt a
+  | .bin op l r _ _ b a => l.nfInv ∧ l.before = [] ∧ r.nfInv ∧ r.before = [] ∧ op ≠ [';'] ∧ Alt b ∧ Alt a
 def allNfInv : List Expr → Prop
   | [] => True
   | e :: rest => e.nfInv ∧ allNfInv rest
@@ -809,11 +811,12 @@ def Expr.inlineClean : Expr → Prop
   | .app n x g _ _ _ => ((Layout.fromGap g).onNewline = false → x.before = []) ∧ n.inlineClean ∧ x.inlineClean
   | .wth .. => False
   | .asrt .. => False
-  | .sel .. => False
-  | .selOr .. => False
-  | .lam .. => False
-  | .un .. => False
-  | .bin .. => False
+  | .sel e _ _ _ _ _ => e.inlineClean
+  | .selOr e _ _ _ d _ _ _ _ => e.inlineClean ∧ d.inlineClean
+  | .lam _ _ _ _ body _ _ => body.inlineClean
+  | .un _ e _ _ _ _ => e.inlineClean
+  -- at most one blank line in front of / after a binary operator (`cex_blank_lines_around_operator`)
+  | .bin _ l r ogl rgl _ _ => ogl ≤ 2 ∧ rgl ≤ 2 ∧ l.inlineClean ∧ r.inlineClean
 def allInlineClean : List Expr → Prop
   | [] => True
   | e :: rest => e.inlineClean ∧ allInlineClean rest
@@ -918,6 +921,89 @@ theorem arg_on_summ {A : List FP} {k : Nat} {f : Lex} (sp : Text) (ai : Nat) (hs
   cases c
   · exact ⟨sp ++ spaces k, by simp [summ_cons, hs, summ1, Summ.comb], hsep _⟩
   · exact ⟨sp ++ (spaces ai ++ spaces k), by simp [summ_cons, hs, summ1, Summ.comb], by rw [spaces_add]; exact hsep _⟩
+
+
+theorem endsWithNL_nil' : endsWithNL ([] : Text) = false := rfl
+
+theorem sepOk_nl (k : Nat) (x : Lex) (hx : x ≠ .tok [';']) : sepOk ('\n' :: spaces k) x = true := by
+  have := sepOk_vert 0 (by omega) k x hx; simpa using this
+theorem sepOk_nlnl (k : Nat) (x : Lex) (hx : x ≠ .tok [';']) : sepOk ('\n' :: '\n' :: spaces k) x = true := by
+  have := sepOk_vert 1 (by omega) k x hx
+  simpa [nl, List.replicate] using this
+
+theorem selSep_sepOk (exprStr g : Text) (i : Nat) (h : endsWithNL exprStr = false) (x : Lex) (hx : x ≠ .tok [';']) :
+    sepOk (selSep exprStr g [] i) x = true := by
+  unfold selSep formatInterstitialTriviaWithSeparator
+  simp only [formatInterstitialTrivia, formatInterstitialGo, separatorFromLayoutWithComments, List.isEmpty_nil, Bool.not_true,
+    Bool.false_eq_true, if_false, Bool.false_and, h, List.nil_append, endsWithNL_nil']
+  cases hon : (Layout.fromGap g).onNewline with
+  | false => simp [sepOk_nil]
+  | true =>
+    simp only [if_true]
+    cases (Layout.fromGap g).blankLine
+    · simpa using sepOk_nl _ x hx
+    · simpa using sepOk_nlnl _ x hx
+
+theorem selOrSep_sepOk (dg : Text) (i : Nat) (x : Lex) (hx : x ≠ .tok [';']) :
+    sepOk (selOrSep dg [] i) x = true := by
+  unfold selOrSep
+  cases hon : (Layout.fromGap dg).onNewline with
+  | false => simp [hon, sepOk_space _ hx]
+  | true =>
+    simp only [hon, if_true, List.isEmpty_nil, List.nil_append, Bool.not_true, Bool.false_and, Bool.false_eq_true, if_false,
+      List.append_nil]
+    cases (Layout.fromGap dg).blankLine
+    · simpa using sepOk_nl _ x hx
+    · simpa using sepOk_nlnl _ x hx
+
+theorem unSep_cases (g : Text) (i : Nat) :
+    unSep [] g i = (if (Layout.fromGap g).onNewline then '\n' :: (if (Layout.fromGap g).blankLine then ['\n'] else []) else []) := by
+  unfold unSep unLayout formatInterstitialTriviaWithSeparator
+  simp only [formatInterstitialTrivia, formatInterstitialGo, separatorFromLayoutWithComments, List.isEmpty_nil, Bool.not_true,
+    Bool.false_eq_true, if_false, Bool.false_and, List.nil_append, endsWithNL_nil', hasLayoutOrComment, List.any_nil, if_true]
+  cases (Layout.fromGap g).onNewline <;> simp
+
+theorem lamColonPrefix_sepOk (g : Text) (i : Nat) (x : Lex) (hx : x ≠ .tok [';']) :
+    sepOk (lamColonPrefix [] g i) x = true := by
+  unfold lamColonPrefix withLayout formatInterstitialTriviaWithSeparator
+  simp only [formatInterstitialTrivia, formatInterstitialGo, separatorFromLayoutWithComments, List.isEmpty_nil, Bool.not_true,
+    Bool.false_eq_true, if_false, Bool.false_and, List.nil_append, endsWithNL_nil', triviaForcesNewline, List.any_nil, if_true]
+  cases hon : (Layout.fromGap g).onNewline with
+  | false => simp [sepOk_nil]
+  | true =>
+    simp only [if_true]
+    cases (Layout.fromGap g).blankLine
+    · simpa using sepOk_nl _ x hx
+    · simpa using sepOk_nlnl _ x hx
+
+theorem sepOk_replicate_nl (k : Nat) (hk1 : 1 ≤ k) (hk2 : k ≤ 2) (n : Nat) (x : Lex) (hx : x ≠ .tok [';']) :
+    sepOk (List.replicate k '\n' ++ spaces n) x = true := by
+  match k, hk1, hk2 with
+  | 1, _, _ => exact sepOk_nl n x hx
+  | 2, _, _ => exact sepOk_nlnl n x hx
+
+theorem colon_ne_semi : Lex.tok [':'] ≠ Lex.tok [';'] := by intro h; injection h with h; cases h
+
+theorem summ_tok_cons (x : Text) {ps : List FP} {f : Lex} (h : summ ps = .lexy [] f true []) :
+    summ (FP.tok x :: ps) = .lexy [] (.tok x) true [] := by
+  rw [summ_cons, h]; simp [summ1, Summ.comb, sepOk_nil]
+
+theorem attrP_summ : ∀ (attrs : List Text), attrs ≠ [] → ∃ f, summ (attrP attrs) = .lexy [] f true []
+  | [], h => absurd rfl h
+  | [a], _ => ⟨_, summ_tok a⟩
+  | a :: b :: rest, _ => by
+    obtain ⟨f, hf⟩ := attrP_summ (b :: rest) (by simp)
+    exact ⟨_, by simp only [attrP]; exact summ_tok_cons a (summ_tok_cons _ hf)⟩
+
+/-- `sep . a₁.a₂…`: the separator in front of the dot, the dot, the attrpath -/
+theorem dotAttr_summ (w : Text) (attrs : List Text) (hne : attrs ≠ []) :
+    summ ([FP.ws w, FP.tok ['.']] ++ attrP attrs) = .lexy w (.tok ['.']) true [] := by
+  obtain ⟨fa, hfa⟩ := attrP_summ attrs hne
+  rw [show [FP.ws w, FP.tok ['.']] ++ attrP attrs = FP.ws w :: (FP.tok ['.'] :: attrP attrs) from rfl, summ_cons,
+    summ_tok_cons _ hfa]
+  simp [summ1, Summ.comb]
+
+theorem dot_ne_semi : Lex.tok ['.'] ≠ Lex.tok [';'] := by intro h; injection h with h; cases h
 
 theorem summ_tok3 (a b c : Char) (hc : c ≠ ';') :
     summ [FP.tok [a], FP.ws [b], FP.tok [c]] = .lexy [] (.tok [a]) (sepOk [b] (.tok [c])) [] := by
@@ -1263,11 +1349,146 @@ theorem rebuildAP_summ : (e : Expr) → e.ok → e.mlSafe → e.nfInv → e.inli
     simp only [Summ.comb, List.nil_append, List.append_nil, Bool.true_and, Bool.and_true, hsep]
   | .wth .., _, _, hinv, _, _, _, _ => hinv.elim
   | .asrt .., _, _, hinv, _, _, _, _ => hinv.elim
-  | .sel .., _, _, hinv, _, _, _, _ => hinv.elim
-  | .selOr .., _, _, hinv, _, _, _, _ => hinv.elim
-  | .lam .., _, _, hinv, _, _, _, _ => hinv.elim
-  | .un .., _, _, hinv, _, _, _, _ => hinv.elim
-  | .bin .., _, _, hinv, _, _, _, _ => hinv.elim
+  | .sel expr attrs g ab before after, hok, hml, hinv, hclean, na, i, b => by
+    obtain ⟨he, hne, _, _, hb, ha⟩ := hok
+    obtain ⟨hem, henb, hea⟩ := hml
+    obtain ⟨hei, heb, hab0, habf, haaf⟩ := hinv
+    subst hab0
+    have hT := trailP_summ (ite_nil_ok na ha) (alt_ite_nil na haaf) i
+    obtain ⟨l, f, t, hs, hf, _, _, c1, _, c3, _⟩ := rebuildAP_summ expr he hem hei hclean false i true
+    have hcl : closedT (expr.effAfter false) := by rw [effAfter_notBinding henb, hea]; exact Or.inl rfl
+    have hes : summ (expr.rebuildAP false i true) = .lexy [] f true [] := by rw [hs, c3 hcl, c1 heb]; rfl
+    have hend : endsWithNL (concat (expr.rebuildAP false i true)) = false := by
+      rw [endsWithNL_summ (rebuildAP_lex expr he false i true).2, hes]; rfl
+    simp only [Expr.rebuildAP, addTriviaP]
+    rw [fmtP_lines hb.1, List.append_assoc (linesP i before)]
+    refine exprS_of_wrap hb habf ?_ hf hT.1 hT.2 (fun h => h) (fun h => h)
+    rw [List.append_assoc, summ_append, summ_append, indentP_summ, hes, dotAttr_summ _ _ hne]
+    simp only [Summ.comb, List.nil_append, List.append_nil, Bool.true_and, Bool.and_true,
+      selSep_sepOk _ g i hend _ dot_ne_semi]
+  | .selOr expr attrs g ab d dg db before after, hok, hml, hinv, hclean, na, i, b => by
+    obtain ⟨he, hne, _, _, hd, _, hb, ha⟩ := hok
+    obtain ⟨hem, hdm, henb, hdnb, hea, hda⟩ := hml
+    obtain ⟨hei, heb, hab0, hdi, hdb, hdb0, habf, haaf⟩ := hinv
+    subst hab0; subst hdb0
+    have hT := trailP_summ (ite_nil_ok na ha) (alt_ite_nil na haaf) i
+    obtain ⟨l, f, t, hs, hf, _, _, c1, _, c3, _⟩ := rebuildAP_summ expr he hem hei hclean.1 false i true
+    obtain ⟨ld, fd, td, hsd, hfd, _, _, c1d, _, c3d, _⟩ := rebuildAP_summ d hd hdm hdi hclean.2 false (selOrIndent dg i) true
+    have hcl : closedT (expr.effAfter false) := by rw [effAfter_notBinding henb, hea]; exact Or.inl rfl
+    have hcld : closedT (d.effAfter false) := by rw [effAfter_notBinding hdnb, hda]; exact Or.inl rfl
+    have hes : summ (expr.rebuildAP false i true) = .lexy [] f true [] := by rw [hs, c3 hcl, c1 heb]; rfl
+    have hds : summ (d.rebuildAP false (selOrIndent dg i) true) = .lexy [] fd true [] := by rw [hsd, c3d hcld, c1d hdb]; rfl
+    have hend : endsWithNL (concat (expr.rebuildAP false i true)) = false := by
+      rw [endsWithNL_summ (rebuildAP_lex expr he false i true).2, hes]; rfl
+    simp only [Expr.rebuildAP, addTriviaP]
+    rw [fmtP_lines hb.1, List.append_assoc (linesP i before)]
+    refine exprS_of_wrap hb habf ?_ hf hT.1 hT.2 (fun h => h) (fun h => h)
+    rw [show indentP i b ++ (expr.rebuildAP false i true ++ [FP.ws (selSep (concat (expr.rebuildAP false i true)) g [] i), FP.tok ['.']] ++
+          attrP attrs ++ [FP.ws (selOrSep dg [] i), FP.tok ['o', 'r'], FP.ws [' ']] ++ d.rebuildAP false (selOrIndent dg i) true) =
+        indentP i b ++ (expr.rebuildAP false i true ++ (([FP.ws (selSep (concat (expr.rebuildAP false i true)) g [] i), FP.tok ['.']] ++
+          attrP attrs) ++ ([FP.ws (selOrSep dg [] i), FP.tok ['o', 'r'], FP.ws [' ']] ++ d.rebuildAP false (selOrIndent dg i) true)))
+      from by simp only [List.append_assoc]]
+    simp only [summ_append, indentP_summ, hes, dotAttr_summ _ _ hne, hds, summ_cons, summ_nil, summ1]
+    simp only [Summ.comb, List.nil_append, List.append_nil, Bool.true_and, Bool.and_true,
+      selSep_sepOk _ g i hend _ dot_ne_semi, selOrSep_sepOk dg i _ (tok_ne_semi (t := ['o', 'r']) (by decide)), sepOk_space _ hfd]
+  | .un op expr g bt before after, hok, hml, hinv, hclean, na, i, b => by
+    obtain ⟨⟨hop, hopne⟩, he, _, hb, ha⟩ := hok
+    obtain ⟨hem, henb, hea⟩ := hml
+    obtain ⟨hei, heb, hbt0, hopsemi, habf, haaf⟩ := hinv
+    subst hbt0
+    have hT := trailP_summ (ite_nil_ok na ha) (alt_ite_nil na haaf) i
+    have ihe := rebuildAP_summ expr he hem hei hclean false
+    have hcl : closedT (expr.effAfter false) := by rw [effAfter_notBinding henb, hea]; exact Or.inl rfl
+    have hne : (op == ['+', '+']) = false := by simpa using hopne
+    simp only [Expr.rebuildAP, addTriviaP, hne, Bool.false_and, Bool.false_eq_true, if_false]
+    rw [fmtP_lines hb.1, List.append_assoc (linesP i before)]
+    refine exprS_of_wrap (fc := .tok op) hb habf ?_ (tok_ne_semi hopsemi) hT.1 hT.2 (fun h => h) (fun h => h)
+    have hlay : unLayout [] g = Layout.fromGap g := by simp [unLayout, hasLayoutOrComment]
+    rw [hlay, unSep_cases]
+    cases hon : (Layout.fromGap g).onNewline with
+    | false =>
+      obtain ⟨l, f, t, hs, hf, _, _, c1, _, c3, _⟩ := ihe i true
+      simp only [Bool.false_eq_true, if_false, summ_append, indentP_summ, summ_cons, summ_nil, summ1, hs, c3 hcl, c1 heb]
+      simp [Summ.comb, sepOk_nil]
+    | true =>
+      obtain ⟨l, f, t, hs, hf, _, _, c1, _, c3, _⟩ := ihe ((Layout.fromGap g).indent.getD i) false
+      simp only [if_true, summ_append, indentP_summ, summ_cons, summ_nil, summ1, hs, c3 hcl, c1 heb]
+      simp only [Summ.comb, List.nil_append, List.append_nil, Bool.true_and, Bool.and_true, Bool.false_eq_true, if_false]
+      cases (Layout.fromGap g).blankLine
+      · simp only [Bool.false_eq_true, if_false]
+        rw [show (['\n'] ++ spaces ((Layout.fromGap g).indent.getD i)) = '\n' :: spaces ((Layout.fromGap g).indent.getD i) from rfl,
+          sepOk_nl _ f hf]
+      · simp only [if_true]
+        rw [show (['\n', '\n'] ++ spaces ((Layout.fromGap g).indent.getD i)) = '\n' :: '\n' :: spaces ((Layout.fromGap g).indent.getD i) from rfl,
+          sepOk_nlnl _ f hf]
+  | .lam name bcc g k body before after, hok, hml, hinv, hclean, na, i, b => by
+    obtain ⟨_, _, hbd, hb, ha⟩ := hok
+    obtain ⟨hbm, hbnb, hba⟩ := hml
+    obtain ⟨hbi, hbcc0, hk1, hk0, hnsemi, habf, haaf⟩ := hinv
+    subst hbcc0
+    have hT := trailP_summ (ite_nil_ok na ha) (alt_ite_nil na haaf) i
+    have hcl : closedT (body.effAfter false) := by rw [effAfter_notBinding hbnb, hba]; exact Or.inl rfl
+    obtain ⟨l, f, t, hs, hf, hl, _, c1, _, c3, _⟩ := rebuildAP_summ body hbd hbm hbi hclean false i (k == 0)
+    simp only [Expr.rebuildAP, addTriviaP]
+    rw [fmtP_lines hb.1, List.append_assoc (linesP i before)]
+    refine exprS_of_wrap (fc := .tok name) hb habf ?_ (tok_ne_semi hnsemi) hT.1 hT.2 (fun h => h) (fun h => h)
+    simp only [summ_append, indentP_summ, summ_cons, summ_nil, summ1, hs, c3 hcl]
+    simp only [Summ.comb, List.nil_append, List.append_nil, Bool.true_and, Bool.and_true,
+      lamColonPrefix_sepOk g i _ colon_ne_semi]
+    match k, hk1 with
+    | 0, _ =>
+      have hl0 : l = [] := by rw [c1 (hk0 rfl)]; rfl
+      subst hl0
+      simp [lamBreak, sepOk_space _ hf]
+    | 1, _ =>
+      simp only [lamBreak, List.replicate, Nat.succ_ne_zero, if_false]
+      rw [show (['\n'] ++ l) = '\n' :: l from rfl, sepOk_nl_vlead hl f hf]
+  | .bin op left right ogl rgl before after, hok, hml, hinv, hclean, na, i, b => by
+    obtain ⟨_, hl, hr, hb, ha⟩ := hok
+    obtain ⟨hlm, hrm, hlnb, hrnb, hla, hra⟩ := hml
+    obtain ⟨hli, hlb, hri, hrb, hopsemi, habf, haaf⟩ := hinv
+    obtain ⟨hogl, hrgl, hlc, hrc⟩ := hclean
+    have hT := trailP_summ (ite_nil_ok na ha) (alt_ite_nil na haaf) i
+    have hcll : closedT (left.effAfter false) := by rw [effAfter_notBinding hlnb, hla]; exact Or.inl rfl
+    have hclr : closedT (right.effAfter false) := by rw [effAfter_notBinding hrnb, hra]; exact Or.inl rfl
+    obtain ⟨ll, fl, tl, hsl, hfl, _, _, c1l, _, c3l, _⟩ := rebuildAP_summ left hl hlm hli hlc false i true
+    have hls : summ (left.rebuildAP false i true) = .lexy [] fl true [] := by rw [hsl, c3l hcll, c1l hlb]; rfl
+    have hrs : ∀ (j : Nat), ∃ fr, summ (right.rebuildAP false j true) = .lexy [] fr true [] ∧ fr ≠ semi := by
+      intro j
+      obtain ⟨lr, fr, tr, hsr, hfr, _, _, c1r, _, c3r, _⟩ := rebuildAP_summ right hr hrm hri hrc false j true
+      exact ⟨fr, by rw [hsr, c3r hclr, c1r hrb]; rfl, hfr⟩
+    have hopne : Lex.tok op ≠ semi := tok_ne_semi hopsemi
+    simp only [Expr.rebuildAP, addTriviaP]
+    rw [fmtP_lines hb.1, List.append_assoc (linesP i before)]
+    refine exprS_of_wrap hb habf ?_ hfl hT.1 hT.2 (fun h => h) (fun h => h)
+    have hbe : right.before.isEmpty = true := by rw [hrb]; rfl
+    obtain ⟨fr1, hr1, hfr1⟩ := hrs (binRightIndent op right i)
+    obtain ⟨fr2, hr2, hfr2⟩ := hrs i
+    unfold binCoreP
+    rw [hbe]
+    by_cases ho : ogl = 0
+    · subst ho
+      by_cases hg : rgl = 0
+      · subst hg
+        simp only [bne_self_eq_false, Bool.false_eq_true, if_false, summ_append, indentP_summ, hls, hr2, summ_cons, summ_nil, summ1]
+        simp [Summ.comb, sepOk_space _ hopne, sepOk_space _ hfr2]
+      · have hg' : (rgl != 0) = true := by simpa using hg
+        simp only [bne_self_eq_false, Bool.false_eq_true, if_false, hg', if_true, summ_append, indentP_summ, hls, hr1, summ_cons,
+          summ_nil, summ1]
+        simp only [Summ.comb, List.nil_append, List.append_nil, Bool.true_and, Bool.and_true, sepOk_space _ hopne]
+        rw [sepOk_replicate_nl rgl (by omega) hrgl _ _ hfr1]
+    · have ho' : (ogl != 0) = true := by simpa using ho
+      by_cases hg : rgl = 0
+      · subst hg
+        simp only [ho', if_true, bne_self_eq_false, Bool.false_eq_true, if_false, summ_append, indentP_summ, hls, hr2, summ_cons,
+          summ_nil, summ1]
+        simp only [Summ.comb, List.nil_append, List.append_nil, Bool.true_and, Bool.and_true, sepOk_space _ hfr2]
+        rw [sepOk_replicate_nl ogl (by omega) hogl _ _ hopne]
+      · have hg' : (rgl != 0) = true := by simpa using hg
+        simp only [ho', if_true, hg', summ_append, indentP_summ, hls, hr1, summ_cons, summ_nil, summ1]
+        simp only [Summ.comb, List.nil_append, List.append_nil, Bool.true_and, Bool.and_true]
+        rw [sepOk_replicate_nl ogl (by omega) hogl _ _ hopne, sepOk_replicate_nl rgl (by omega) hrgl _ _ hfr1]
+        rfl
 theorem joinNl_summ : (es : List Expr) → allOk es → allMlSafe es → allNfInv es → allInlineClean es → nonLastClosed es → es ≠ [] → ∀ (i : Nat),
     ∃ l f t, summ (joinP [.ws ['\n']] (rebuildAllP es i false)) = .lexy l f true t ∧ f ≠ semi ∧ VLead l ∧ TrailT t
   | [], _, _, _, _, _, h, _ => absurd rfl h
